@@ -83,3 +83,13 @@ def _f17(prop, sub, v, case):
             and v.info.get('model') == 'GaussianPRF'
             and v.info.get('theta_mod90_nonzero')
             and v.info.get('min_fwhm', 99) < 2.5)
+
+
+@pred('F24')
+def _f24(prop, sub, v, case):
+    # exact elliptical overlap kernel: a pixel corner lying on the ellipse
+    # (|rho^2-1| < 1e-10 in the unit-disk frame) takes the "vertex on circle"
+    # branches of overlap_area_triangle_unit_circle, which mis-assign area
+    return (v.aid in ('exact_weight', 'weight_range', 'certain_pixel')
+            and v.info.get('kind') in ('ellipse', 'eannulus')
+            and v.info.get('corner_on_boundary') is True)
